@@ -524,6 +524,7 @@ impl Rig {
                     .args(&args)
                     .stdin(std::process::Stdio::null())
                     .stdout(std::process::Stdio::null())
+                    .stderr(std::process::Stdio::null())
                     .spawn()
                     .unwrap_or_else(|e| panic!("harness: spawn {}: {}", exe, e));
                 verif::trace::emit(json!({"e": "Spawn", "name": name, "pid": child.id(), "exe": exe, "args": args}));
@@ -759,6 +760,20 @@ impl Rig {
                 let ms = st["interval_ms"].as_u64().unwrap_or(100);
                 self.rt.spawn(async move { reader.start(Some(Duration::from_millis(ms)), None, None).await });
                 verif::trace::emit(json!({"e": "EventReaderStarted"}));
+            }
+            "write_file" => {
+                // environment action: a file left behind by an earlier run / version
+                let path = st["path"].as_str().unwrap();
+                if let Some(dir) = std::path::Path::new(path).parent() {
+                    let _ = std::fs::create_dir_all(dir);
+                }
+                let r = std::fs::write(path, st["text"].as_str().unwrap_or(""));
+                verif::trace::emit(json!({"e": "WriteFile", "path": path, "ok": r.is_ok()}));
+            }
+            "remove_dir" => {
+                let path = st["path"].as_str().unwrap();
+                let r = std::fs::remove_dir_all(path);
+                verif::trace::emit(json!({"e": "RemoveDir", "path": path, "ok": r.is_ok()}));
             }
             "notify_key_keeper" => {
                 let kk = self.shared.get_key_keeper_shared_state();
